@@ -91,7 +91,7 @@ DEP_OPS = frozenset({
 })
 
 
-def standard(tier, d2_states_cap=None, thorough_cap=2500, thorough_budget=1500, families="full", d2_seeds=None):
+def standard(tier, d2_states_cap=None, thorough_cap=400, thorough_budget=3000, families="full", d2_seeds=None):
     """the plan used by C01/C04/C06/C07/C17 (each passes its own caps).
     families: "full" (complete menu on the generated families in the thorough tier, DEP_OPS in the quick
     tier), "dep" (dependence-relevant operations only)
